@@ -1,6 +1,7 @@
 import TinsModel.Dns.Refine
 import TinsModel.Dns.Compose
 import TinsModel.Dns.Update
+import TinsModel.Dns.Oracle
 /-
   Property C10 — DNS messages stay coherent under parsing, editing and name compression.
   Only the property theorems live here; the model is `TinsModel/Dns/Model.lean`, the specification
@@ -384,5 +385,14 @@ example : (refCompress [0, 7, 0x81, 0x80] exS0).length < (refEncode [0, 7, 0x81,
 
 example : (parse (refCompress [0, 7, 0x81, 0x80] exS0) >>= fun m0 => runEdits m0 exEdits >>= observe) =
     .ok (expected (exEdits.foldl specEdit exS0)) := by decide +kernel
+
+/-! ## 7. The run-time oracle judges the calls the theorems are about -/
+
+/-- the oracle classifies an insertion call with `specOfNew`; on the call `toNew r` of a legal record it finds `r` -/
+theorem oracle_classifies_record {r : SRec} (hl : r.legal = true) (txt : Bytes) : specOfNew (r.toNew txt) = some r :=
+  specOfNew_toNew hl txt
+
+theorem oracle_classifies_query {q : SQuery} (hl : q.legal = true) : specOfQuery q.toNew = some q :=
+  specOfQuery_toNew hl
 
 end Tins.Props.C10
